@@ -190,6 +190,13 @@ Proof.
   - do 7 eexists. split; [vm_compute; reflexivity|]. split; [vm_compute; reflexivity|]. split; [reflexivity|]. split; [reflexivity|]. split; vm_compute; reflexivity.
 Qed.
 
+(** non-vacuity of the finalisation theorems: the example run, replayed into networkx, sorted *)
+Example C16_numbering_nonvacuous :
+  exists nm i0 m cw log r gf, ex_run = Ok (nm, i0, m, cw, log, r) /\
+    SampleFinal.finalise_nx false (SampleFinal.to_nx m) None = Ok gf /\
+    NxGraph.node_keys gf = map Z.of_nat (seq 0 11) /\ NxGraph.connected gf = true.
+Proof. do 7 eexists. split; [vm_compute; reflexivity|]. split; [vm_compute; reflexivity|]. split; vm_compute; reflexivity. Qed.
+
 (** every generated definition used above is the translation of the CURRENT source (when a function
     leaves the translatable shapes the generator emits a fall-back text for the executable check only
     and sets this flag to false: this obligation then breaks) *)
@@ -211,3 +218,4 @@ Print Assumptions C16_copy_selected_by_fragid.
 Print Assumptions C16_numbering_canonical.
 Print Assumptions C16_sample_numbering_canonical.
 Print Assumptions C16_nonvacuous.
+Print Assumptions C16_numbering_nonvacuous.
